@@ -327,6 +327,7 @@ class Sim(object):
         self.first_pending = first_pending
         self.current_stimulus = None
         self.quiescent_points = 0
+        self.skipped = []          # script positions of peer stimuli that could not be delivered
         with patched(self):
             sock = None
             if role == 'acceptor':
@@ -422,7 +423,7 @@ class Sim(object):
         snap = {'stimulus': self.describe_stimulus(), 'wire_n': len(self.wire),
                 'ind_n': len(self.indications), 'closed': self.all_closed(),
                 'timer': self.timer_running, 'state': self.state(),
-                'now': self.now}
+                'now': self.now, 'pos': self.pos}
         self.trace.append(snap)
         self.max_ticks_between_syncs = max(self.max_ticks_between_syncs, self.ticks_since_sync)
         self.ticks_since_sync = 0
@@ -434,8 +435,6 @@ class Sim(object):
             return False
         s = self.active_socket()
         if s is not None and s.deliverable():
-            return False
-        if getattr(self.provider, 'raw_pdu', b'') and self._buffer_has_complete_pdu():
             return False
         return True
 
@@ -491,7 +490,7 @@ class Sim(object):
     def deliver_to_socket(self, stim):
         s = self.active_socket()
         if s is None or s.closed:
-            self.skipped = getattr(self, 'skipped', 0) + 1
+            self.skipped.append(self.pos - 1)
             return False
         if stim[0] == 'bytes':
             s.inbound += stim[1]
